@@ -137,6 +137,16 @@ class Library:
         f[n + '__ctor0'] = 'static inline %s %s__ctor0(void) { %s o; o.has = 0; return o; }' % (ct, n, ct)
         f[n + '__from__nullopt_t'] = 'static inline %s %s__from__nullopt_t(nullopt_t x) { %s o; o.has = 0; return o; }' % (ct, n, ct)
         f[n + '__from__' + S(e)] = 'static inline %s %s__from__%s(%s v) { %s o; o.has = 1; o.val = v; return o; }' % (ct, n, S(e), e, ct)
+        # converting constructors optional<T>(U&&) for arithmetic U != T (same conversion as T(u))
+        if ek == 'scalar' and e in ('int64_t', 'uint64_t', 'int', 'double', 'float', 'uint32_t', 'long', 'unsigned long'):
+            for src in ('int', 'int64_t', 'uint64_t', 'uint32_t', 'double', 'float'):
+                if src == e:
+                    continue
+                if src in ('double', 'float') and e not in ('double', 'float'):
+                    conv = 'F2I_%s(v)' % {'int64_t': 'i64', 'long': 'i64', 'uint64_t': 'u64', 'unsigned long': 'u64', 'int': 'i32', 'uint32_t': 'u32'}[e]
+                else:
+                    conv = '(%s)v' % e
+                f[n + '__from__' + src] = 'static inline %s %s__from__%s(%s v) { %s o; o.has = 1; o.val = %s; return o; }' % (ct, n, src, src, ct, conv)
         f['ext__make_optional__%s__%s' % (n, S(e))] = 'static inline %s ext__make_optional__%s__%s(%s v) { %s o; o.has = 1; o.val = v; return o; }' % (ct, n, S(e), e, ct)
         f[n + '__has_value'] = 'static inline _Bool %s__has_value(%s o) { return o.has != 0; }' % (n, ct)
         f[n + '__op_conv_bool'] = 'static inline _Bool %s__op_conv_bool(%s o) { return o.has != 0; }' % (n, ct)
@@ -160,6 +170,9 @@ class Library:
             f[n + '__op_ne'] = 'static inline _Bool %s__op_ne(%s a, %s b) { return !(a.has == b.has && (!a.has || a.val == b.val)); }' % (n, ct, ct)
             f[n + '__op_eq__' + S(e)] = 'static inline _Bool %s__op_eq__%s(%s a, %s b) { return a.has && a.val == b; }' % (n, S(e), ct, e)
             f[n + '__op_ne__' + S(e)] = 'static inline _Bool %s__op_ne__%s(%s a, %s b) { return !(a.has && a.val == b); }' % (n, S(e), ct, e)
+            if e in ('int64_t', 'uint64_t', 'uint32_t', 'long') :
+                f[n + '__op_eq__int'] = 'static inline _Bool %s__op_eq__int(%s a, int b) { return a.has && a.val == (%s)b; }' % (n, ct, e)
+                f[n + '__op_ne__int'] = 'static inline _Bool %s__op_ne__int(%s a, int b) { return !(a.has && a.val == (%s)b); }' % (n, ct, e)
         if e == 'tp_t':
             f[n + '__op_lt__tp_t'] = 'static inline _Bool %s__op_lt__tp_t(%s o, tp_t v) { return !o.has || TP_LT(o.val, v); }' % (n, ct)
             f[n + '__op_gt__tp_t'] = 'static inline _Bool %s__op_gt__tp_t(%s o, tp_t v) { return o.has && TP_LT(v, o.val); }' % (n, ct)
@@ -289,6 +302,14 @@ class Library:
 
     def uptr(self, n, ct, e):
         f = {}
+        if self.ty.is_oomd_struct(e):
+            # unique_ptr to an object that is a struct in this unit: the spec maps the handle to storage
+            f[n + '__op_arrow'] = ('%s *%s__resolve(%s p);\nstatic inline %s *%s__op_arrow(%s p) { __CPROVER_assert(p != 0, "UB: null unique_ptr '
+                                   'dereferenced"); return %s__resolve(p); }' % (e, n, ct, e, n, ct, n))
+            f[n + '__op_deref'] = ('%s *%s__resolve(%s p);\nstatic inline %s %s__op_deref(%s p) { __CPROVER_assert(p != 0, "UB: null unique_ptr '
+                                   'dereferenced"); return *%s__resolve(p); }' % (e, n, ct, e, n, ct, n))
+            f[n + '__op_conv_bool'] = 'static inline _Bool %s__op_conv_bool(%s p) { return p != 0; }' % (n, ct)
+            return f
         f[n + '__op_arrow'] = ('static inline %s %s__op_arrow(%s p) { __CPROVER_assert(p != 0, "UB: null unique_ptr '
                                'dereferenced"); return (%s)p; }' % (e, n, ct, e))
         f[n + '__op_deref'] = ('static inline %s %s__op_deref(%s p) { __CPROVER_assert(p != 0, "UB: null unique_ptr '
